@@ -74,6 +74,10 @@ def gen_cases(tier, seed):
         # fault: the task stepping the process is aborted mid-step (a caller's timeout), then a kill arrives
         # (the kill is placed after the cancellation has been processed, i.e. at the following quiescent point: a request inside
         # the window between task.cancel() and its delivery is outside the property's quantifier, see DESIGN.md section 6)
+        for s1 in range(0, n + 1):
+            # (the same with the process paused when its stepping task is cancelled)
+            plist.append([{'at': s1, 'act': ['pause', 'p']}, {'at': 'q', 'act': ['abort_task']}, {'at': 'q', 'act': ['kill', 'k']}])
+            plist.append([{'at': s1, 'act': ['pause', 'p']}, {'at': 'q', 'act': ['abort_task']}, {'at': 'q', 'act': ['restart_task']}, {'at': 'q', 'act': ['kill', 'k']}])
         for s1 in range(1, n + 1):
             plist.append([{'at': s1, 'act': ['abort_task']}, {'at': 'q', 'act': ['kill', 'k']}])
             plist.append([{'at': s1, 'act': ['abort_task']}, {'at': 'q', 'act': ['pause', 'p']}, {'at': 'q', 'act': ['kill', 'k']}])
@@ -86,6 +90,9 @@ def gen_cases(tier, seed):
                 for s3 in (s2, s2 + 1, s2 + 2):
                     plist.append([{'at': s1, 'act': ['kill', 'k']}, {'at': s2, 'act': ['cancel_ret', 'kill']}, {'at': s3, 'act': ['kill', 'again']}])
                 plist.append([{'at': s1, 'act': ['kill', 'k']}, {'at': s2, 'act': ['cancel_ret', 'kill']}, {'at': s2, 'act': ['pause', 'p']}])
+                # ... and after the withdrawal the process future is cancelled (the other way of asking for the kill)
+                plist.append([{'at': s1, 'act': ['kill', 'k']}, {'at': s2, 'act': ['cancel_ret', 'kill']}, {'at': s2, 'act': ['cancel_future']}])
+                # a pause while paused-and-abandoned: pause, the stepping task is cancelled, then the kill
                 plist.append([{'at': s1, 'act': ['pause', 'p']}, {'at': s2, 'act': ['cancel_ret', 'pause']}, {'at': s2 + 1, 'act': ['kill', 'k']}])
             plist.append([{'at': s1, 'act': ['kill', 'k']}, {'at': s1, 'act': ['abort_task']}, {'at': 'q', 'act': ['restart_task']}])
             plist.append([{'at': s1, 'act': ['kill', 'k']}, {'at': s1, 'act': ['abort_task']}])
